@@ -115,7 +115,9 @@ def search(rep, tier, seed, reason=""):
     if len(rep.violations) > before:
         return True
     for k in range(2 if tier == "quick" else 6):
-        scs, _ = threads.sendflow.gen_scenarios(seed * 4099 + 17 * k, 40, 160, "inject")
+        scs = threads.run_inject(rep, seed * 4099 + 17 * k, 40, 160)
+        if len(rep.violations) > before:
+            return True
         if threads.oracle_inject(rep, scs) > 0 and len(rep.violations) > before:
             return True
     runs, tfailing, hard = threads.correspond_threads(rep, tier, seed + 1)
